@@ -48,14 +48,15 @@ def mk_axl2wb(dw, aw, base=0, addressing="word", pol=None, small=False, master=N
         name += "/" + pol
         mask = (1 << aw) - 1
         mon = lambda inst: BridgeMonitor(inst, "axl", "wb", nb, nb,
-                                         lambda a: (((a - base) & mask) >> log2(nb)) << log2(nb), s_amap, errs=True)
+                                         lambda a: (((a - base) & mask) >> log2(nb)) << log2(nb), s_amap, errs=True,
+                                         fair=True, b_order=True)
     dom = None
     if small:
         amax = (1 << aw) - 1
         dom = {"awaddr": (0, amax), "araddr": (1 % (amax + 1), amax - 1), "wdata": (0, (1 << dw) - 1),
                "wstrb": (0, (1 << nb) - 1), "datr": (0, (1 << dw) - 2)}
     return PortInst(name, m, "axl2wb %d %d %d %d" % (aw, nb, shift, base), "axl", axl, "wb", wb, dom=dom, env=env,
-                    monitor=mon)
+                    monitor=mon, m_par=dict(dw=dw, aw=aw), s_par=dict(dw=dw, aw=aw, adr=aw - shift))
 
 
 def mk_wb2axl(dw, aw, base=0, addressing="word", pol=None, small=False, p_err=0.0, tag=""):
@@ -68,18 +69,18 @@ def mk_wb2axl(dw, aw, base=0, addressing="word", pol=None, small=False, p_err=0.
     env = mon = None
     mask = (1 << aw) - 1
     if pol is not None:
-        env = Env(WbMaster(len(wb.adr), nb), AxlPartner(nb, p_err=p_err, **AXL_POL[pol]), "axl")
+        env = Env(WbMaster(aw - shift, nb), AxlPartner(nb, p_err=p_err, **AXL_POL[pol]), "axl")
         name += "/" + pol
         mon = lambda inst: BridgeMonitor(inst, "wb", "axl", nb, nb,
                                          lambda adr: (((adr << shift) - base) & mask) & ~(nb - 1),
                                          lambda a: a & ~(nb - 1), errs=True)
     dom = None
     if small:
-        amax = (1 << len(wb.adr)) - 1
+        amax = (1 << (aw - shift)) - 1
         dom = {"adr": (0, amax), "datw": (0, (1 << dw) - 1), "sel": (0, (1 << nb) - 1), "rdata": (0, (1 << dw) - 2),
                "bresp": (0, 2), "rresp": (0, 3)}
-    return PortInst(name, m, "wb2axl %d %d %d" % (len(wb.adr), shift, base), "wb", wb, "axl", axl, dom=dom, env=env,
-                    monitor=mon)
+    return PortInst(name, m, "wb2axl %d %d %d" % (aw - shift, shift, base), "wb", wb, "axl", axl, dom=dom, env=env,
+                    monitor=mon, m_par=dict(dw=dw, aw=aw, adr=aw - shift), s_par=dict(dw=dw, aw=aw))
 
 
 MASTERS = {"single": dict(max_out=1), "pipelined": dict(max_out=3, max_delay=2),
@@ -92,47 +93,76 @@ MASTERS = {"single": dict(max_out=1), "pipelined": dict(max_out=3, max_delay=2),
            "aw-then-w-busy": dict(max_out=1, order="aw_first", p_wr=0.9, p_rd=0.9, p_bready=0.9, p_rready=0.9, max_delay=1)}
 
 
-def mk_axlsram(dw, aw, depth, read_only=False, master=None, small=False, tag=""):
+def mk_axlsram(dw, aw, depth, read_only=False, master=None, small=False, tag="", variant=None):
+    """variant: None (size given), "memory" (a Memory object is handed over), "default-bus" (bus=None: the SRAM
+    creates its own 32-bit/32-bit interface)."""
     nb = dw // 8
     shift = log2(nb)
-    abits = max(log2(depth), 1) if depth > 1 else 1
+    abits = max((depth - 1).bit_length(), 1)          # Migen: bits_for(depth - 1)
     bus = AXILiteInterface(data_width=dw, address_width=aw)
     init = [sum(L.init_byte(k * nb + i) << (8 * i) for i in range(nb)) for k in range(depth)]
     if small:
         init = [((1 << dw) - 1) * (k % 2) for k in range(depth)]
-    m = AXILiteSRAM(depth * nb, bus=bus, init=init, read_only=read_only)
-    name = "AXILiteSRAM(dw=%d,aw=%d,depth=%d%s)%s" % (dw, aw, depth, ",ro" if read_only else "", tag)
+    if variant == "memory":
+        from migen import Memory
+        m = AXILiteSRAM(Memory(dw, depth, init=init), bus=bus, read_only=read_only)
+    elif variant == "default-bus":
+        assert (dw, aw) == (32, 32)
+        m = AXILiteSRAM(depth * nb, init=init, read_only=read_only)
+        bus = m.bus
+    else:
+        m = AXILiteSRAM(depth * nb, bus=bus, init=init, read_only=read_only)
+    name = "AXILiteSRAM(dw=%d,aw=%d,depth=%d%s%s)%s" % (dw, aw, depth, ",ro" if read_only else "",
+                                                       "," + variant if variant else "", tag)
     env = mon = None
     if master is not None:
         kw = dict(MASTERS[master])
         if read_only:
             kw["p_wr"] = 0.0
+        if depth & (depth - 1):
+            # not a power of two: only words inside the memory are addressed (beyond it nothing is specified)
+            kw["addrs"] = [((k * 7919) % depth) << shift for k in range(12)] + [(depth - 1) << shift, 0]
+            kw["p_pool"] = 1.0
         env = Env(AxlMaster(aw, nb, **kw), None, None)
         name += "/" + master
-        mon = lambda inst: BridgeMonitor(inst, "axl", None, nb, None, lambda a: ((a >> shift) % depth) << shift, None)
+        mon = lambda inst: BridgeMonitor(inst, "axl", None, nb, None, lambda a: ((a >> shift) % (1 << abits)) << shift,
+                                         None, fair=True)
     dom = None
     if small:
         amax = (1 << aw) - 1
         dom = {"awaddr": (0, amax), "araddr": (0, amax), "wdata": (0, (1 << dw) - 1), "wstrb": (0, (1 << nb) - 1)}
-    return PortInst(name, m, "axlsram %d %d %d %d %s" % (shift, len(m.mem.get_port().adr) if False else abits, nb,
-                                                        1 if read_only else 0, " ".join(map(str, init))),
-                    "axl", bus, dom=dom, env=env, monitor=mon)
+    return PortInst(name, m, "axlsram %d %d %d %d %s" % (shift, abits, nb, 1 if read_only else 0,
+                                                        " ".join(map(str, init))),
+                    "axl", bus, dom=dom, env=env, monitor=mon, m_par=dict(dw=dw, aw=aw))
 
 
-def mk_axl2csr(dw, aw, csr_aw=14, master=None, small=False, tag=""):
+def mk_axl2csr(dw, aw, csr_aw=14, master=None, small=False, tag="", defaults=False):
     nb = dw // 8
     shift = log2(nb)
-    bus = AXILiteInterface(data_width=dw, address_width=aw)
-    csr = csr_bus.Interface(data_width=dw, address_width=csr_aw)
-    m = AXILite2CSR(bus, csr)
-    name = "AXILite2CSR(dw=%d,aw=%d,csr_aw=%d)%s" % (dw, aw, csr_aw, tag)
+    if defaults == "axl":
+        # default-argument path 1: the bridge creates its AXI-Lite interface itself (32-bit data, 32-bit address)
+        assert (dw, aw) == (32, 32)
+        csr = csr_bus.Interface(data_width=dw, address_width=csr_aw)
+        m = AXILite2CSR(bus_csr=csr)
+        bus = m.axi_lite
+    elif defaults == "csr":
+        # default-argument path 2: the bridge creates its CSR bus itself (8-bit data, 14-bit address; fixed d779792)
+        assert (dw, csr_aw) == (8, 14)
+        bus = AXILiteInterface(data_width=dw, address_width=aw)
+        m = AXILite2CSR(axi_lite=bus)
+        csr = m.csr
+    else:
+        bus = AXILiteInterface(data_width=dw, address_width=aw)
+        csr = csr_bus.Interface(data_width=dw, address_width=csr_aw)
+        m = AXILite2CSR(bus, csr)
+    name = "AXILite2CSR(dw=%d,aw=%d,csr_aw=%d%s)%s" % (dw, aw, csr_aw, ",default-" + defaults if defaults else "", tag)
     env = mon = None
     if master is not None:
         full = (1 << nb) - 1
         env = Env(AxlMaster(aw, nb, strbs=(full, full, 0), **MASTERS[master]), CsrPartner(nb=nb), "csr")
         name += "/" + master
         mon = lambda inst: BridgeMonitor(inst, "axl", None, nb, None,
-                                         lambda a: ((a >> shift) % (1 << csr_aw)) << shift, None)
+                                         lambda a: ((a >> shift) % (1 << csr_aw)) << shift, None, fair=True)
     dom = None
     if small:
         amax = (1 << aw) - 1
@@ -140,22 +170,27 @@ def mk_axl2csr(dw, aw, csr_aw=14, master=None, small=False, tag=""):
                "datr": (0, (1 << dw) - 2)}
     s_ports = (("datr",), [csr.dat_r], ("adr", "we", "re", "datw"), [csr.adr, csr.we, csr.re, csr.dat_w])
     return PortInst(name, m, "axl2csr %d %d %d" % (shift, csr_aw, nb), "axl", bus, s_ports=s_ports, dom=dom,
-                    env=env, monitor=mon)
+                    env=env, monitor=mon, m_par=dict(dw=dw, aw=aw),
+                    s_par={"widths": dict(datr=dw, adr=csr_aw, we=1, re=1, datw=dw)})
 
 
-def mk_axldown(dw_from, dw_to, aw, pol=None, master="single", small=None, p_err=0.0, tag="", cls=None):
+def mk_axldown(dw_from, dw_to, aw, pol=None, master="single", small=None, p_err=0.0, tag="", cls=None, s_aw=None):
+    """`s_aw`: address width of the narrow side when it differs from the master's (the address is truncated)."""
     nbf, nbt = dw_from // 8, dw_to // 8
     ratio = dw_from // dw_to
+    s_aw = s_aw or aw
     mi = AXILiteInterface(data_width=dw_from, address_width=aw)
-    si = AXILiteInterface(data_width=dw_to, address_width=aw)
+    si = AXILiteInterface(data_width=dw_to, address_width=s_aw)
     m = (cls or AXILiteDownConverter)(mi, si)
-    name = "%s(%d->%d,aw=%d)%s" % ((cls or AXILiteDownConverter).__name__, dw_from, dw_to, aw, tag)
+    name = "%s(%d->%d,aw=%d%s)%s" % ((cls or AXILiteDownConverter).__name__, dw_from, dw_to, aw,
+                                      "->%d" % s_aw if s_aw != aw else "", tag)
     env = mon = None
     if pol is not None:
         env = Env(AxlMaster(aw, nbf, **MASTERS[master]), AxlPartner(nbt, p_err=p_err, **AXL_POL[pol]), "axl")
         name += "/%s/%s" % (master, pol)
-        mon = lambda inst: BridgeMonitor(inst, "axl", "axl", nbf, nbt, lambda a: a & ~(nbf - 1), lambda a: a & ~(nbt - 1),
-                                         errs=True)
+        smask = (1 << s_aw) - 1
+        mon = lambda inst: BridgeMonitor(inst, "axl", "axl", nbf, nbt, lambda a: a & smask & ~(nbf - 1),
+                                         lambda a: a & ~(nbt - 1), errs=True)
     dom = None
     amax = (1 << aw) - 1
     fullw = (1 << dw_from) - 1
@@ -168,28 +203,33 @@ def mk_axldown(dw_from, dw_to, aw, pol=None, master="single", small=None, p_err=
         dom = {"m.awvalid": (0,), "m.awaddr": (0,), "m.wvalid": (0,), "m.wdata": (0,), "m.wstrb": (0,), "m.bready": (0,),
                "m.araddr": (0, amax), "s.awready": (0,), "s.wready": (0,), "s.bvalid": (0,), "s.bresp": (0,),
                "s.rresp": (0, 2), "s.rdata": (0, (1 << dw_to) - 2)}
-    return PortInst(name, m, "axldown %d %d %d" % (ratio, nbt, aw), "axl", mi, "axl", si, dom=dom, env=env, monitor=mon)
+    return PortInst(name, m, "axldown %d %d %d" % (ratio, nbt, s_aw), "axl", mi, "axl", si, dom=dom, env=env,
+                    monitor=mon, m_par=dict(dw=dw_from, aw=aw), s_par=dict(dw=dw_to, aw=s_aw))
 
 
-def mk_axlup(dw_from, dw_to, aw, pol=None, master="single", small=False, p_err=0.0, tag="", cls=None):
+def mk_axlup(dw_from, dw_to, aw, pol=None, master="single", small=False, p_err=0.0, tag="", cls=None, s_aw=None):
     nbf, nbt = dw_from // 8, dw_to // 8
     ratio = dw_to // dw_from
+    s_aw = s_aw or aw
     mi = AXILiteInterface(data_width=dw_from, address_width=aw)
-    si = AXILiteInterface(data_width=dw_to, address_width=aw)
+    si = AXILiteInterface(data_width=dw_to, address_width=s_aw)
     m = (cls or AXILiteUpConverter)(mi, si)
-    name = "%s(%d->%d,aw=%d)%s" % ((cls or AXILiteUpConverter).__name__, dw_from, dw_to, aw, tag)
+    name = "%s(%d->%d,aw=%d%s)%s" % ((cls or AXILiteUpConverter).__name__, dw_from, dw_to, aw,
+                                      "->%d" % s_aw if s_aw != aw else "", tag)
     env = mon = None
     if pol is not None:
         env = Env(AxlMaster(aw, nbf, **MASTERS[master]), AxlPartner(nbt, p_err=p_err, **AXL_POL[pol]), "axl")
         name += "/%s/%s" % (master, pol)
-        mon = lambda inst: BridgeMonitor(inst, "axl", "axl", nbf, nbt, lambda a: a & ~(nbf - 1), lambda a: a & ~(nbt - 1),
-                                         errs=True)
+        smask = (1 << s_aw) - 1
+        mon = lambda inst: BridgeMonitor(inst, "axl", "axl", nbf, nbt, lambda a: a & smask & ~(nbf - 1),
+                                         lambda a: a & ~(nbt - 1), errs=True, b_order=True)
     dom = None
     if small:
         amax = (1 << aw) - 1
         dom = {"m.awaddr": (0, amax), "m.araddr": (0, amax), "m.wdata": ((1 << dw_from) - 2,), "m.wstrb": (1,),
                "s.bresp": (2,), "s.rresp": (0,), "s.rdata": (0x3C5A & ((1 << dw_to) - 1),)}
-    return PortInst(name, m, "axlup %d %d" % (ratio, nbf), "axl", mi, "axl", si, dom=dom, env=env, monitor=mon)
+    return PortInst(name, m, "axlup %d %d %d" % (ratio, nbf, s_aw), "axl", mi, "axl", si, dom=dom, env=env,
+                    monitor=mon, m_par=dict(dw=dw_from, aw=aw), s_par=dict(dw=dw_to, aw=s_aw))
 
 
 # partner behaviour AXI2AXILite is proved for (everything else is a known finding): one read outstanding, a W
@@ -197,20 +237,25 @@ def mk_axlup(dw_from, dw_to, aw, pol=None, master="single", small=False, p_err=0
 AXI2AXL_PARTNER = dict(depth=1, aw_before_w=True, ordered=True)
 
 
-def mk_axi2axl(dw, aw, pol=None, master=None, small=None, tag="", partner=None, p_err=0.0, mon_kw=None):
+def mk_axi2axl(dw, aw, pol=None, master=None, small=None, tag="", partner=None, p_err=0.0, mon_kw=None, idw=2,
+               version="axi4"):
     nb = dw // 8
-    axi = AXIInterface(data_width=dw, address_width=aw, id_width=2)
+    axi = AXIInterface(data_width=dw, address_width=aw, id_width=idw, version=version)
     axl = AXILiteInterface(data_width=dw, address_width=aw)
     m = AXI2AXILite(axi, axl)
-    name = "AXI2AXILite(dw=%d,aw=%d)%s" % (dw, aw, tag)
+    lenw, sizew = {"axi4": (8, 3), "axi3": (4, 4)}[version]
+    name = "AXI2AXILite(dw=%d,aw=%d%s%s)%s" % (dw, aw, ",id%d" % idw if idw != 2 else "",
+                                               "," + version if version != "axi4" else "", tag)
     env = mon = None
     if pol is not None:
         kw = dict(AXL_POL[pol])
         kw.update(AXI2AXL_PARTNER if partner is None else partner)
-        env = Env(AxiMaster(aw, nb, **(master or {})), AxlPartner(nb, p_err=p_err, **kw), "axl")
+        mkw = dict(ids=1 << idw)
+        mkw.update(master or {})
+        env = Env(AxiMaster(aw, nb, **mkw), AxlPartner(nb, p_err=p_err, **kw), "axl")
         name += "/" + pol
         mon = lambda inst: BridgeMonitor(inst, "axi", "axl", nb, nb, lambda a: a, lambda a: a & ~(nb - 1),
-                                         **(mon_kw or dict(errs=True)))
+                                         **(mon_kw or dict(errs=True, fair=True)))
     dom = None
     amax = (1 << aw) - 1
     idle_w = {"m.awvalid": (0,), "m.awaddr": (0,), "m.awburst": (0,), "m.awlen": (0,), "m.awsize": (0,), "m.awid": (0,),
@@ -233,25 +278,34 @@ def mk_axi2axl(dw, aw, pol=None, master=None, small=None, tag="", partner=None, 
                "m.wdata": (5,), "m.wstrb": (1,), "m.wlast": (1,), "s.bresp": (0,), "s.bvalid": (0,),
                "m.araddr": (1,), "m.arburst": (1,), "m.arlen": (1,), "m.arsize": (0,), "m.arid": (1,),
                "s.rresp": (0,), "s.rdata": (9,), "m.bready": (1,), "m.rready": (1,)}
-    return PortInst(name, m, "axi2axl %d" % aw, "axi", axi, "axl", axl, dom=dom, env=env, monitor=mon)
+    return PortInst(name, m, "axi2axl %d" % aw, "axi", axi, "axl", axl, dom=dom, env=env, monitor=mon,
+                    m_par=dict(dw=dw, aw=aw, idw=idw, lenw=lenw, sizew=sizew), s_par=dict(dw=dw, aw=aw))
 
 
-def mk_axl2axi(dw, aw, small=False, tag=""):
+def mk_axl2axi(dw, aw, small=False, tag="", defaults=False, wid=1, rid=2, prot=5, burst="INCR", idw=2):
     nb = dw // 8
     axl = AXILiteInterface(data_width=dw, address_width=aw)
-    axi = AXIInterface(data_width=dw, address_width=aw, id_width=2)
-    m = AXILite2AXI(axl, axi, write_id=1, read_id=2, prot=5)
-    extra = [axi.aw.prot, axi.aw.cache, axi.ar.prot, axi.ar.cache]
-    mf, sf = L.AXL_M, L.AXI_S
-    s_ports = (L.AXI_S, L.axi_s_sigs(axi), L.AXI_M + ("x_awprot", "x_awcache", "x_arprot", "x_arcache"),
-               L.axi_m_sigs(axi) + extra)
+    axi = AXIInterface(data_width=dw, address_width=aw, id_width=idw)
+    if defaults:
+        m = AXILite2AXI(axl, axi)
+        wid, rid, prot, burst = 0, 0, 0, "INCR"
+    else:
+        m = AXILite2AXI(axl, axi, write_id=wid, read_id=rid, prot=prot, burst_type=burst)
+    extra = [axi.aw.prot, axi.aw.cache, axi.ar.prot, axi.ar.cache, axi.aw.lock, axi.aw.qos, axi.ar.lock, axi.ar.qos]
+    xn = ("x_awprot", "x_awcache", "x_arprot", "x_arcache", "x_awlock", "x_awqos", "x_arlock", "x_arqos")
+    s_ports = (L.AXI_S, L.axi_s_sigs(axi), L.AXI_M + xn, L.axi_m_sigs(axi) + extra)
+    fw = L.field_widths("axi", dw=dw, aw=aw, idw=idw)
+    fw.update(x_awprot=3, x_awcache=4, x_arprot=3, x_arcache=4, x_awlock=1, x_awqos=4, x_arlock=1, x_arqos=4)
     dom = None
     if small:
         amax = (1 << aw) - 1
         dom = {"awaddr": (0, amax), "araddr": (0, amax), "wdata": (0, (1 << dw) - 1), "wstrb": (0, (1 << nb) - 1),
                "bresp": (0, 2), "rresp": (0, 2), "rdata": (0, (1 << dw) - 2), "bid": (1,), "rid": (2,), "rlast": (0, 1)}
-    return PortInst("AXILite2AXI(dw=%d,aw=%d)%s" % (dw, aw, tag), m, "axl2axi %d 1 5 1 2" % log2(nb), "axl", axl,
-                    s_ports=s_ports, dom=dom)
+    code = {"FIXED": 0, "INCR": 1, "WRAP": 2}[burst]
+    name = "AXILite2AXI(dw=%d,aw=%d,%s,ids %d/%d,prot %d%s)%s" % (dw, aw, burst, wid, rid, prot,
+                                                                ",defaults" if defaults else "", tag)
+    return PortInst(name, m, "axl2axi %d %d %d %d %d" % (log2(nb), code, prot, wid, rid), "axl", axl,
+                    s_ports=s_ports, dom=dom, m_par=dict(dw=dw, aw=aw), s_par={"widths": fw})
 
 
 def mk_ahb2wb(dw, aw, addressing="word", pol=None, small=False, p_err=0.0, tag=""):
@@ -274,7 +328,21 @@ def mk_ahb2wb(dw, aw, addressing="word", pol=None, small=False, p_err=0.0, tag="
                "htrans": (2, 3), "hwdata": ((1 << dw) - 2,), "datr": ((1 << dw) - 3,)}
         if small == "q":
             dom.update(haddr=tuple(range(nb)), htrans=(2,))
-    return PortInst(name, m, "ahb2wb %d %d" % (lg, shift), "ahb", hb, "wb", wb, dom=dom, env=env, monitor=mon)
+    return PortInst(name, m, "ahb2wb %d %d" % (lg, shift), "ahb", hb, "wb", wb, dom=dom, env=env, monitor=mon,
+                    m_par=dict(dw=dw, aw=aw), s_par=dict(dw=dw, aw=aw, adr=aw - shift))
+
+
+def mk_axlconv_same(dw, aw, pol):
+    """AXILiteConverter with equal widths: the selection code connects master and slave directly."""
+    nb = dw // 8
+    mi = AXILiteInterface(data_width=dw, address_width=aw)
+    si = AXILiteInterface(data_width=dw, address_width=aw)
+    m = AXILiteConverter(mi, si)
+    env = Env(AxlMaster(aw, nb, **MASTERS["pipelined"]), AxlPartner(nb, p_err=0.1, **AXL_POL[pol]), "axl")
+    mon = lambda inst: BridgeMonitor(inst, "axl", "axl", nb, nb, lambda a: a & ~(nb - 1), lambda a: a & ~(nb - 1),
+                                     errs=True, b_order=True)
+    return MonitorOnlyInst("AXILiteConverter(%d->%d,aw=%d)/pipelined/%s" % (dw, dw, aw, pol), m, "unit", "axl", mi,
+                           "axl", si, env=env, monitor=mon, m_par=dict(dw=dw, aw=aw), s_par=dict(dw=dw, aw=aw))
 
 
 def mk_axi2wb(dw, aw, base=0, pol=None, small=False, tag=""):
@@ -290,14 +358,15 @@ def mk_axi2wb(dw, aw, base=0, pol=None, small=False, tag=""):
         s_amap = lambda adr: (adr << shift) & ~(nb - 1)
         env = Env(AxiMaster(aw, nb), WbPartner(nb, amap=s_amap, **WB_POL[pol]), "wb")
         name += "/" + pol
-        mon = lambda inst: BridgeMonitor(inst, "axi", "wb", nb, nb, lambda a: (a - base) & mask, s_amap, errs=True)
+        mon = lambda inst: BridgeMonitor(inst, "axi", "wb", nb, nb, lambda a: (a - base) & mask, s_amap, errs=True,
+                                         fair=True)
     dom = None
     if small:
         dom = {"m.awaddr": (2,), "m.awburst": (1,), "m.awlen": (1,), "m.awsize": (0,), "m.awid": (2,),
                "m.wdata": (5,), "m.wstrb": (1,), "m.wlast": (0, 1), "m.araddr": (1,), "m.arburst": (1,), "m.arlen": (1,),
                "m.arsize": (0,), "m.arid": (1,), "m.bready": (1,), "s.datr": (9,), "s.err": (0,)}
     return PortInst(name, m, "axi2wb %d %d %d %d" % (aw, nb, shift, base), "axi", axi, "wb", wb, dom=dom, env=env,
-                    monitor=mon)
+                    monitor=mon, m_par=dict(dw=dw, aw=aw, idw=2), s_par=dict(dw=dw, aw=aw, adr=aw - shift))
 
 
 def mk_wb2axi(dw, aw, base=0, pol=None, small=False, tag=""):
@@ -310,17 +379,17 @@ def mk_wb2axi(dw, aw, base=0, pol=None, small=False, tag=""):
     env = mon = None
     mask = (1 << aw) - 1
     if pol is not None:
-        env = Env(WbMaster(len(wb.adr), nb), AxiSinglePartner(nb, **AXL_POL[pol]), "axi")
+        env = Env(WbMaster(aw - shift, nb), AxiSinglePartner(nb, **AXL_POL[pol]), "axi")
         name += "/" + pol
         mon = lambda inst: BridgeMonitor(inst, "wb", "axi", nb, nb, lambda adr: (((adr << shift) - base) & mask) & ~(nb - 1),
                                          lambda a: a, errs=True)
     dom = None
     if small:
-        amax = (1 << len(wb.adr)) - 1
+        amax = (1 << (aw - shift)) - 1
         dom = {"adr": (0, amax), "datw": ((1 << dw) - 1,), "sel": ((1 << nb) - 1,), "rdata": ((1 << dw) - 2,),
                "bresp": (0, 2), "rresp": (0, 3), "bid": (0,), "rid": (0,), "rlast": (1,)}
-    return PortInst(name, m, "wb2axi %d %d %d %d" % (len(wb.adr), shift, base, shift), "wb", wb, "axi", axi, dom=dom,
-                    env=env, monitor=mon)
+    return PortInst(name, m, "wb2axi %d %d %d %d" % (aw - shift, shift, base, shift), "wb", wb, "axi", axi, dom=dom,
+                    env=env, monitor=mon, m_par=dict(dw=dw, aw=aw, adr=aw - shift), s_par=dict(dw=dw, aw=aw, idw=1))
 
 
 def mk_adapter(master_kind, master_dw, bus_std, bus_dw, direction, pol, aw=32, tag=""):
@@ -329,10 +398,13 @@ def mk_adapter(master_kind, master_dw, bus_std, bus_dw, direction, pol, aw=32, t
     drives the master end and plays the memory at the slave end; monitors only."""
     from litex.soc.integration.soc import SoCBusHandler
     mk_if = {"wishbone": lambda dw: wishbone.Interface(data_width=dw, adr_width=aw - log2(dw // 8), addressing="word"),
+             "wishbone-byte": lambda dw: wishbone.Interface(data_width=dw, adr_width=aw - log2(dw // 8),
+                                                            addressing="byte"),
              "axi-lite": lambda dw: AXILiteInterface(data_width=dw, address_width=aw),
              "axi": lambda dw: AXIInterface(data_width=dw, address_width=aw, id_width=1),
              "ahb": lambda dw: ahb.AHBInterface(data_width=dw, address_width=aw)}
-    kind = {"wishbone": "wb", "axi-lite": "axl", "axi": "axi", "ahb": "ahb"}
+    kind = {"wishbone": "wb", "wishbone-byte": "wb", "axi-lite": "axl", "axi": "axi", "ahb": "ahb"}
+    byte_m = master_kind == "wishbone-byte" and direction == "m2s"
     bus = SoCBusHandler(standard=bus_std, data_width=bus_dw, address_width=aw)
     itf = mk_if[master_kind](master_dw)
     other = bus.add_adapter("probe", itf, direction)
@@ -344,7 +416,7 @@ def mk_adapter(master_kind, master_dw, bus_std, bus_dw, direction, pol, aw=32, t
     name = "add_adapter(%s/%d %s %s/%d)/%s%s" % (master_kind, master_dw, "->" if direction == "m2s" else "<-", bus_std,
                                                  bus_dw, pol, tag)
     serial = dict(max_out=1, order="aw_first")
-    master = {"wb": lambda: WbMaster(len(m_itf.adr), mnb) if m_k == "wb" else None,
+    master = {"wb": lambda: WbMaster(aw if byte_m else aw - log2(mnb), mnb),
               "axl": lambda: AxlMaster(aw, mnb, **serial),
               "axi": lambda: AxiMaster(aw, mnb, max_len=3, ids=2),
               "ahb": lambda: AhbMaster(aw, mnb)}[m_k]()
@@ -357,10 +429,15 @@ def mk_adapter(master_kind, master_dw, bus_std, bus_dw, direction, pol, aw=32, t
     else:
         s_amap = lambda a: a
         partner = AxiSinglePartner(snb, **dict(AXL_POL[pol], **AXI2AXL_PARTNER))
-    m_amap = {"wb": lambda adr: adr * mnb, "axl": lambda a: a & ~(mnb - 1), "axi": lambda a: a, "ahb": lambda a: a}[m_k]
+    m_amap = {"wb": (lambda adr: adr & ~(mnb - 1)) if byte_m else (lambda adr: adr * mnb), "axl": lambda a: a & ~(mnb - 1), "axi": lambda a: a, "ahb": lambda a: a}[m_k]
     env = Env(master, partner, s_k)
     mon = lambda inst: BridgeMonitor(inst, m_k, s_k, mnb, snb, m_amap, s_amap, errs=False)
-    return MonitorOnlyInst(name, bus, "unit", m_k, m_itf, s_k, s_itf, env=env, monitor=mon)
+    par = lambda k, dw: dict(dw=dw, aw=aw, adr=aw if (byte_m and dw == m_dw and k == m_k) else aw - log2(dw // 8)) \
+        if k == "wb" else \
+        (dict(dw=dw, aw=aw, idw=1) if k == "axi" else dict(dw=dw, aw=aw))
+    # the widths of the interface the glue created are checked against the bus parameters the user asked for
+    return MonitorOnlyInst(name, bus, "unit", m_k, m_itf, s_k, s_itf, env=env, monitor=mon, m_par=par(m_k, m_dw),
+                           s_par=par(s_k, s_dw))
 
 
 MAKERS.update(mk_axl2wb=mk_axl2wb, mk_wb2axl=mk_wb2axl, mk_axlsram=mk_axlsram, mk_axl2csr=mk_axl2csr,
@@ -377,6 +454,9 @@ ADAPTER_GRID = [
     ("ahb", 32, "wishbone", 32, "m2s", "mixed"), ("wishbone", 32, "axi", 32, "m2s", "accept-early"),
     ("axi-lite", 32, "axi", 32, "m2s", "respond-late"), ("wishbone", 64, "axi-lite", 32, "m2s", "fast"),
     ("axi-lite", 32, "axi-lite", 64, "s2m", "fast"), ("axi-lite", 64, "axi-lite", 32, "s2m", "accept-late"),
+    # corners: byte-addressed Wishbone master, 128-bit interface (ratio 4 + bridge), 64-bit address bus
+    ("wishbone-byte", 32, "axi-lite", 32, "m2s", "fast"), ("axi-lite", 128, "wishbone", 32, "m2s", "mixed"),
+    ("axi-lite", 32, "axi-lite", 128, "m2s", "accept-early"), ("axi", 64, "wishbone", 64, "m2s", "fast"),
 ]
 
 
@@ -394,6 +474,10 @@ def jobs(tier):
     B(lambda: mk_axl2wb(64, 32, base=0x40000000, pol="mixed"))
     B(lambda: mk_axl2wb(32, 16, base=0x30, addressing="byte", pol="mixed"))
     B(lambda: mk_axl2wb(32, 32, base=0x2000, tag="/garbage"))
+    B(lambda: mk_axl2wb(128, 32, base=0x100000, pol="fast"))
+    B(lambda: mk_axl2wb(32, 32, base=0x1000, pol="mixed", master=AxlMaster(32, 4, **MASTERS["busy"]), tag="/busy"))
+    B(lambda: mk_axl2wb(64, 64, base=0x100000000, pol="fast", master=AxlMaster(64, 8, **MASTERS["pipelined"]),
+                        tag="/pipelined"))
     # ---- AXILiteSRAM / AXILite2CSR (axi_lite_to_simple)
     A(lambda: mk_axlsram(8, 1, 2, small=True))
     if not quick:
@@ -405,6 +489,12 @@ def jobs(tier):
     B(lambda: mk_axlsram(64, 16, 16, master="pipelined"))
     B(lambda: mk_axlsram(32, 16, 32, read_only=True, master="busy"))
     B(lambda: mk_axlsram(32, 16, 32, tag="/garbage"))
+    B(lambda: mk_axlsram(128, 32, 8, master="busy"))
+    B(lambda: mk_axlsram(32, 32, 48, master="pipelined"))                 # depth not a power of two
+    B(lambda: mk_axlsram(32, 32, 16, master="w-first", variant="memory"))
+    B(lambda: mk_axlsram(32, 32, 32, master="aw-first", variant="default-bus"))
+    B(lambda: mk_axl2csr(32, 32, master="lazy", defaults="axl"))
+    B(lambda: mk_axl2csr(8, 32, master="busy", defaults="csr"))
     for ms in ("single", "pipelined", "busy"):
         B(lambda ms=ms: mk_axl2csr(32, 32, master=ms))
     B(lambda: mk_axl2csr(8, 16, csr_aw=10, master="w-first"))
@@ -421,6 +511,11 @@ def jobs(tier):
                 continue
             B(lambda f=f, t=t, pol=pol, ms=ms: mk_axldown(f, t, 32, pol=pol, master=ms, p_err=0.1))
     B(lambda: mk_axldown(64, 16, 16, tag="/garbage"))
+    B(lambda: mk_axldown(128, 32, 32, pol="fast", master="busy", p_err=0.1))
+    B(lambda: mk_axldown(128, 64, 64, pol="accept-late", master="unaligned", p_err=0.1))
+    B(lambda: mk_axldown(64, 32, 32, pol="respond-late", master="pipelined", s_aw=16))        # narrower slave address
+    B(lambda: mk_axldown(64, 32, 32, pol="accept-early", master="w-first", cls=AXILiteConverter, p_err=0.1))
+    B(lambda: mk_axldown(64, 8, 32, cls=AXILiteConverter, s_aw=12, tag="/garbage"))
     # ---- AXI-Lite up-converter (a master that issues a new address while a transfer of the same direction is
     #      open is outside the proved domain: finding C09-axil-upconv-lane-follows-address)
     A(lambda: mk_axlup(8, 16, 2, small=True))
@@ -431,6 +526,12 @@ def jobs(tier):
                 continue
             B(lambda f=f, t=t, pol=pol, ms=ms: mk_axlup(f, t, 32, pol=pol, master=ms, p_err=0.1))
     B(lambda: mk_axlup(16, 64, 16, tag="/garbage"))
+    B(lambda: mk_axlup(32, 128, 32, pol="fast", master="aw-then-w-busy", p_err=0.1))
+    B(lambda: mk_axlup(64, 128, 64, pol="respond-late", master="aw-with-w", p_err=0.1))
+    B(lambda: mk_axlup(32, 64, 32, pol="accept-late", master="aw-then-w", s_aw=16))
+    B(lambda: mk_axlup(32, 64, 32, pol="accept-early", master="aw-then-w", cls=AXILiteConverter, p_err=0.1))
+    B(lambda: mk_axlup(8, 64, 32, cls=AXILiteConverter, s_aw=12, tag="/garbage"))
+    B(lambda: mk_axlconv_same(32, 32, "pipeline2"))
     # ---- AXI2AXILite / AXILite2AXI
     A(lambda: mk_axi2axl(16, 3, small="r", tag="/read-path"))
     A(lambda: mk_axi2axl(16, 3, small="w", tag="/write-path"), max_states=30000 if quick else 1000000)
@@ -442,7 +543,13 @@ def jobs(tier):
     B(lambda: mk_axi2axl(64, 32, pol="accept-early", master=dict(max_len=7, max_out=2)))
     B(lambda: mk_axi2axl(32, 16, pol="fast", master=dict(p_wr=0.8, p_rd=0.8, p_bready=0.9, p_rready=0.9, max_delay=0)))
     B(lambda: mk_axi2axl(32, 32, tag="/garbage"))
+    B(lambda: mk_axi2axl(32, 32, pol="accept-early", version="axi3", master=dict(max_len=7)))
+    B(lambda: mk_axi2axl(128, 32, pol="fast", idw=4, master=dict(max_len=5, max_out=2)))
+    B(lambda: mk_axi2axl(64, 64, pol="respond-late", idw=1))
     B(lambda: mk_axl2axi(32, 32))
+    B(lambda: mk_axl2axi(32, 32, defaults=True))
+    B(lambda: mk_axl2axi(64, 32, wid=3, rid=0, prot=2, burst="FIXED"))
+    B(lambda: mk_axl2axi(128, 64, wid=0, rid=3, prot=7, burst="WRAP"))
     # ---- AHB2Wishbone
     A(lambda: mk_ahb2wb(32, 3, small=True))
     A(lambda: mk_ahb2wb(64, 4, small="q" if quick else True))
@@ -464,6 +571,8 @@ def jobs(tier):
     for g in ADAPTER_GRID:
         B(lambda g=g: mk_adapter(*g))
     # ---- Wishbone2AXILite
+    B(lambda: mk_wb2axl(128, 32, base=0x4000, pol="accept-early", p_err=0.1))
+    B(lambda: mk_wb2axl(64, 64, base=0x200000000, pol="fast", p_err=0.1))
     A(lambda: mk_wb2axl(8, 2, base=4, small=True))
     if not quick:
         A(lambda: mk_wb2axl(16, 3, base=2, small=True))
@@ -519,6 +628,14 @@ def correspond(ctx):
     dis = corpus_run(ctx)
     ctx.jobs = jobs(ctx.tier)
     d2, bad = run_jobs(ctx, ctx.jobs)
+    # mode A has to reach the complete reachable product on the unchanged tree; an exploration that runs into the
+    # state bound (state explosion of a changed implementation) is a disagreement, not a silent loss of coverage
+    for i in ctx.cov.instances:
+        if i.get("mode") == "A" and not i.get("exhaustive") and not any(d.inst_name == i["instance"] for d in d2):
+            d = Disagreement(None, [], 0, None, None, kind="exploration of %s stopped at %d states without covering the "
+                             "reachable product" % (i["instance"], i.get("states", 0)))
+            d.inst_name = i["instance"]
+            d2.append(d)
     return dis + d2
 
 
@@ -575,7 +692,11 @@ def search(ctx, disagreements, proof_info):
             related = inst.name.split("/")[0] in bad_names or not bad_names
             if not related and rounds < 2:
                 continue
-            r = closed_loop_search(inst, ctx.rng, 4000 if related else 1500)
+            try:
+                r = closed_loop_search(inst, ctx.rng, 4000 if related else 1500)
+            except Exception as ex:      # a changed implementation may crash or wedge the environment
+                return {"instance": inst.name, "trace": [], "monitor": "exception while driving: %r" % (ex,),
+                        "letter_format": FMT}
             if r:
                 trace, msg = r
                 return {"instance": inst.name, "trace": [list(l) for l in trace], "monitor": msg,
@@ -593,6 +714,7 @@ F_RLAST = "C09-axi2axil-rlast-pipelined-slave"
 F_RESP = "C09-axi2axil-resp-swallowed"
 F_WAW = "C09-axi2axil-w-accepted-before-aw"
 F_AHBERR = "C09-ahb2wb-error-response-malformed"
+F_CSRDEF = "C09-axil2csr-default-csr-bus-nameerror"   # fixed d779792
 F_HANG = "C09-axil-downconv-write-hang"              # fixed f8f7de0
 F_UNAL = "C09-axil-downconv-unaligned-addr"          # fixed a1e11a3
 
@@ -679,6 +801,13 @@ def all_probes():
     inst = mk_ahb2wb(32, 32, pol="mixed", p_err=0.4)
     fails, what = closed_loop_probe(inst, 25, 800)
     out.append((F_AHBERR, fails, "AHB2Wishbone: Wishbone slave answering ack & err; " + what))
+    # -- fixed: AXILite2CSR with its default CSR bus (8-bit) must elaborate (csr_bus was not imported)
+    try:
+        AXILite2CSR(axi_lite=AXILiteInterface(data_width=8, address_width=32))
+        fails, what = False, "elaborates"
+    except Exception as ex:
+        fails, what = True, "raises %r" % (ex,)
+    out.append((F_CSRDEF, fails, "AXILite2CSR(axi_lite=<8-bit>) with the default bus_csr: " + what))
     # -- fixed: down-converter write whose first sub-word is unstrobed, slave with aw/w.ready high while idle
     inst = mk_axldown(64, 32, 32, pol="fast", master="single")
     inst.env.master.strbs = inst.env._pristine[0].strbs = (0xf0, 0xf0, 0x0f, 0xc0)
